@@ -304,6 +304,8 @@ var ibFieldChoices = []ibField{
 	{"N", `json:"-"`, `@tag valid:"required"`, "struct {\n\t\tIn string `json:\"-\"`\n\t}"},
 	{"O", `json:"o"`, `@tag valid:"required"`, "-"},
 	{"P", `json:"p"`, `@tag valid:"exist"`, "[]*struct{ X, Y int }"},
+	// '$' in an existing and in an injected value (regexp replacement templates expand $name)
+	{"Q", `json:"a$$b" re:"^x$1$"`, `@tag valid:"re='^x+$'" cost:"$5"`, ""},
 }
 
 func ibStructs(sel []int) [][]ibField {
@@ -374,7 +376,7 @@ func TestVerifBoundedC06(t *testing.T) {
 			os.Remove(p)
 		}
 	})
-	fmt.Printf("BOUNDED name=C06.merge cases=%d bound=every file of 1..%d fields drawn from 16 field shapes (with/without tag literal, with/without @tag comment, comments merely mentioning @tag, values containing ':' ';' and backslashes, several keys, non-ASCII text, raw strings and doc comments containing @tag), two fields per struct, all processed in one process through handleFile: merged tags, untouched fields, bytes outside tag literals, still parses\n", n, maxFields)
+	fmt.Printf("BOUNDED name=C06.merge cases=%d bound=every file of 1..%d fields drawn from 17 field shapes (with/without tag literal, with/without @tag comment, comments merely mentioning @tag, values containing ':' ';' and backslashes, several keys, non-ASCII text, raw strings and doc comments containing @tag), two fields per struct, all processed in one process through handleFile: merged tags, untouched fields, bytes outside tag literals, still parses\n", n, maxFields)
 	if rep.viol > 0 {
 		t.Fatalf("%d violations", rep.viol)
 	}
@@ -418,7 +420,7 @@ func TestVerifBoundedC07(t *testing.T) {
 			rep.report("C07.idempotent", "file %v changed on a repeated run:\n--- after run 1:\n%s\n--- after run 2:\n%s", sel, ibDiffLine(once, twice, four), "")
 		}
 	})
-	fmt.Printf("BOUNDED name=C07.idempotent cases=%d bound=every file of 1..%d fields from 16 field shapes: run 1 (-f), run 2 (-d), runs 3-4 (-p, -f) leave the bytes of run 1; files without applicable annotations are unchanged by run 1\n", n, maxFields)
+	fmt.Printf("BOUNDED name=C07.idempotent cases=%d bound=every file of 1..%d fields from 17 field shapes: run 1 (-f), run 2 (-d), runs 3-4 (-p, -f) leave the bytes of run 1; files without applicable annotations are unchanged by run 1\n", n, maxFields)
 	if rep.viol > 0 {
 		t.Fatalf("%d violations", rep.viol)
 	}
